@@ -5,6 +5,8 @@ import (
 	"flag"
 	"fmt"
 	"os"
+	"os/exec"
+	"regexp"
 	"path/filepath"
 	"runtime/pprof"
 	"sort"
@@ -27,6 +29,16 @@ type PropCfg struct {
 	Inline    []string `json:"inline"` // callees inlined despite having a contract
 	MaxPaths  int      `json:"max_paths"`
 	Bounded   []string `json:"bounded"`
+	BoundedTests []BoundedTest `json:"bounded_tests"`
+}
+
+// BoundedTest is a stand-in for a function outside the verifier's reach: an in-package Go test (injected with
+// go test -overlay) that runs the real code over a stated finite domain. Labelled bounded, never counted as proved.
+type BoundedTest struct {
+	Pkg  string `json:"pkg"`
+	File string `json:"file"`
+	Run  string `json:"run"`
+	What string `json:"what"`
 }
 
 type KnownFinding struct {
@@ -421,6 +433,21 @@ func cmdCheck(argv []string) int {
 	}
 	wall := time.Since(t0).Seconds()
 
+	var boundedEv []map[string]interface{}
+	for _, bt := range pc.BoundedTests {
+		res := runBounded(*repo, bt, id)
+		boundedEv = append(boundedEv, res)
+		if bad, _ := res["violated"].(bool); bad {
+			violations++
+			path := filepath.Join(verifRoot, "replays", id, "bounded_"+sanitize(bt.Run)+".json")
+			os.MkdirAll(filepath.Dir(path), 0o755)
+			b, _ := json.MarshalIndent(res, "", " ")
+			os.WriteFile(path, b, 0o644)
+			failedNames = append(failedNames, "bounded:"+bt.Run)
+			fmt.Printf("VIOLATION property=%s replay=%s\n", id, path)
+		}
+	}
+	boundedResults = boundedEv
 	if ex.pathCap {
 		fmt.Printf("note: path cap reached; some paths unexplored\n")
 	}
@@ -607,7 +634,10 @@ func writeEvidence(id, tier string, seed int, pc *PropCfg, ld *Loaded, ex *Exec,
 	sort.Strings(unsup)
 	sort.Strings(underContract)
 	cov := map[string]interface{}{
-		"obligations":               len(names),
+		// obligations claimed as proved by this run: obligations that fail as listed known findings or are
+		// undecided (never part of the claim) are reported separately below and in obligations_total
+		"obligations":               len(names) - len(knownSeen) - len(undecided),
+		"obligations_total":         len(names),
 		"discharged":                discharged,
 		"checker_cmd":               fmt.Sprintf("/verif/bin/gocv check %s --tier %s", id, tier),
 		"trusted_base":              trusted,
@@ -624,7 +654,7 @@ func writeEvidence(id, tier string, seed int, pc *PropCfg, ld *Loaded, ex *Exec,
 		"paths_explored":            ex.stateN + 1,
 		"path_cap_hit":              ex.pathCap,
 		"unsupported_constructs":    unsup,
-		"bounded":                   pc.Bounded,
+		"bounded":                   boundedResults,
 		"dropped_by_translation":    []string{"goroutines (go statements are events; no interleaving)", "channel contents (receives yield arbitrary values)", "termination (partial correctness only)", "map iteration order, time, randomness (nondeterministic values)", "append aliasing (append always allocates a fresh backing array)"},
 		"contract_files":            relFiles(ld.Specs.Files),
 		"explanation":               pc.Text,
@@ -642,6 +672,48 @@ func writeEvidence(id, tier string, seed int, pc *PropCfg, ld *Loaded, ex *Exec,
 	os.MkdirAll(filepath.Join(verifRoot, "evidence"), 0o755)
 	b, _ := json.MarshalIndent(ev, "", " ")
 	os.WriteFile(filepath.Join(verifRoot, "evidence", id+".json"), b, 0o644)
+}
+
+var boundedResults []map[string]interface{}
+
+var boundedRe = regexp.MustCompile(`BOUNDED name=(\S+) cases=(\d+) mismatches=(\d+) first="(.*)"`)
+
+func runBounded(repo string, bt BoundedTest, id string) map[string]interface{} {
+	res := map[string]interface{}{"test": bt.Run, "package": bt.Pkg, "source": bt.File, "what": bt.What, "label": "bounded (not counted as discharged)"}
+	work := filepath.Join(verifRoot, "work", "bounded", id)
+	os.MkdirAll(work, 0o755)
+	src := filepath.Join(verifRoot, bt.File)
+	ov := map[string]map[string]string{"Replace": {filepath.Join(repo, bt.Pkg, "zz_gocv_bounded_test.go"): src}}
+	b, _ := json.Marshal(ov)
+	ovFile := filepath.Join(work, sanitize(bt.Run)+"_overlay.json")
+	os.WriteFile(ovFile, b, 0o644)
+	cmd := exec.Command("go", "test", "-v", "-overlay", ovFile, "-vet=off", "-count=1", "-timeout", "300s", "-run", bt.Run, "./"+bt.Pkg+"/")
+	cmd.Dir = repo
+	cmd.Env = append(os.Environ(), "GOFLAGS=-mod=mod", "GOPROXY=off", "GOSUMDB=off", "GOTOOLCHAIN=local")
+	t0 := time.Now()
+	out, err := cmd.CombinedOutput()
+	res["wall_s"] = round3(time.Since(t0).Seconds())
+	var runs []map[string]interface{}
+	total, mism := 0, 0
+	for _, m := range boundedRe.FindAllStringSubmatch(string(out), -1) {
+		c, _ := strconv.Atoi(m[2])
+		x, _ := strconv.Atoi(m[3])
+		total += c
+		mism += x
+		runs = append(runs, map[string]interface{}{"name": m[1], "cases": c, "mismatches": x, "first_mismatch": m[4]})
+	}
+	res["runs"] = runs
+	res["cases"] = total
+	res["mismatches"] = mism
+	if err != nil || len(runs) == 0 || mism > 0 {
+		res["violated"] = mism > 0 || (err != nil && strings.Contains(string(out), "--- FAIL")) || strings.Contains(string(out), "panic:")
+		res["output"] = firstLines(string(out), 40)
+		if len(runs) == 0 && !res["violated"].(bool) {
+			res["broken"] = "bounded test produced no result line (does not compile against this tree?)"
+			fmt.Fprintf(os.Stderr, "bounded test %s produced no result: %s\n", bt.Run, firstLines(string(out), 6))
+		}
+	}
+	return res
 }
 
 func relFiles(fs []string) []string {
